@@ -387,6 +387,80 @@ def cfg_loop(mod):
         raise TranslatorError(f"check_cfg_unitary changed: {body_src(f)}")
 
 
+
+# ------------------------------------------------------------------ contain_qubit_ty (tys/qubit.py)
+def _method(cls, name):
+    for m in cls.body:
+        if isinstance(m, ast.FunctionDef) and m.name == name:
+            return m
+    return None
+
+
+def qubit_finder(root):
+    """Reads QubitFinder / contain_qubit_ty and the `visit` protocol of the type classes; returns
+    (Coq text defining ty_visit / contains_qubit, info)."""
+    q = parse_file(root / "tys/qubit.py")
+    t = parse_file(root / "tys/ty.py")
+    cls = find_class(q, "QubitFinder")
+    if [U(b) for b in cls.bases] != ["Visitor"]:
+        raise TranslatorError("QubitFinder bases changed")
+    members = {}
+    for m in strip_doc(cls.body):
+        if isinstance(m, ast.ClassDef) and m.name == "FoundFlag" and [U(b) for b in m.bases] == ["Exception"]:
+            continue
+        if not isinstance(m, ast.FunctionDef):
+            raise TranslatorError(f"QubitFinder: unknown member `{U(m)[:80]}`")
+        ann = U(m.args.args[1].annotation) if len(m.args.args) == 2 and m.args.args[1].annotation else None
+        members[m.name] = ([U(d) for d in m.decorator_list], ann, body_src(m))
+    want = {
+        "visit": (["functools.singledispatchmethod"], "Any", ["return False"]),
+        "_visit_OpaqueType": (["visit.register"], "OpaqueType", ["if is_qubit_ty(ty):\n    raise self.FoundFlag", "return False"]),
+        "_visit_TypeArg": (["visit.register"], "TypeArg", ["arg.ty.visit(self)", "return True"]),
+    }
+    struct = (["visit.register"], "StructType", ["for field in ty.fields:\n    field.ty.visit(self)", "return False"])
+    for k, v in want.items():
+        if members.get(k) != v:
+            raise TranslatorError(f"QubitFinder.{k} has an unknown shape: {members.get(k)}")
+    extra = set(members) - set(want)
+    has_struct = False
+    if extra == {"_visit_StructType"} and members["_visit_StructType"] == struct:
+        has_struct = True
+    elif extra:
+        raise TranslatorError(f"QubitFinder has unknown methods / shapes: {[(k, members[k]) for k in sorted(extra)]}")
+    f = find_func(q, "contain_qubit_ty")
+    if body_src(f) != ["finder = QubitFinder()",
+                       "try:\n    ty.visit(finder)\nexcept QubitFinder.FoundFlag:\n    return True\nelse:\n    return False"]:
+        raise TranslatorError(f"contain_qubit_ty has an unknown shape: {body_src(f)}")
+    if body_src(find_func(q, "is_qubit_ty")) != ["return ty == qubit_ty()"]:
+        raise TranslatorError("is_qubit_ty changed")
+    # the accept side of the protocol in tys/ty.py
+    ptb = find_class(t, "ParametrizedTypeBase")
+    v = _method(ptb, "visit")
+    if v is None or body_src(v) != ["if not visitor.visit(self):\n    for arg in self.args:\n        visitor.visit(arg)"]:
+        raise TranslatorError("ParametrizedTypeBase.visit has an unknown shape")
+    for name in ("TupleType", "OpaqueType", "StructType"):
+        c = find_class(t, name)
+        if [U(b) for b in c.bases] != ["ParametrizedTypeBase"] or _method(c, "visit") is not None:
+            raise TranslatorError(f"{name}: bases changed or it now overrides visit")
+    for name in ("NumericType", "NoneType", "BoundTypeVar", "ExistentialTypeVar"):
+        v = _method(find_class(t, name), "visit")
+        if v is None or body_src(v) != ["visitor.visit(self)"]:
+            raise TranslatorError(f"{name}.visit has an unknown shape")
+    init = _method(find_class(t, "TupleType"), "__init__")
+    if init is None or "args = [TypeArg(ty) for ty in element_types]" not in body_src(init):
+        raise TranslatorError("TupleType.__init__ no longer sets args to its element types")
+    args = "(fix go (l : list (option gty)) {struct l} : bool := match l with [] => false | a :: r => (match a with Some u => ty_visit u | None => false end) || go r end)"
+    flds = "(fix gof (l : list gty) {struct l} : bool := match l with [] => false | u :: r => ty_visit u || gof r end)"
+    text = ("(* tys/qubit.py QubitFinder + the accept methods of tys/ty.py.  true = QubitFinder.FoundFlag was raised;\n"
+            "   `||` is the exception cutting the traversal short.  Struct fields visited: %s *)\n" % has_struct
+            + "Fixpoint ty_visit (t : gty) {struct t} : bool :=\n  match t with\n"
+            "  | GQubit => true\n  | GLeaf => false\n"
+            f"  | GOpaque args => {args} args\n  | GTuple args => {args} args\n"
+            + (f"  | GStruct args fields => {flds} fields || {args} args\n" if has_struct else f"  | GStruct args fields => {args} args\n")
+            + "  end.\n(* contain_qubit_ty: try: ty.visit(finder) except FoundFlag: return True else: return False *)\n"
+            "Definition contains_qubit (t : gty) : bool := ty_visit t.\n")
+    return text, {"qubit_finder_struct_fields": has_struct}
+
 def coq_list(xs):
     return "[" + "; ".join(xs) + "]"
 
@@ -504,5 +578,8 @@ def translate(repo):
     o.append(f'Definition metadata_key : string := "{key}"%string.')
     o.append("Definition metadata_value (flags : Z) : Z := flags.")
     o.append("Definition metadata_call_sites : list (string * string) := " + coq_list([f'("{a}"%string, "{b}"%string)' for a, b in sites]) + ".")
-    return "\n".join(o) + "\n", {"args_mode": mode, "check_fields": fields, "assign_visits": av, "place_idx": pidx,
+    qtext, qinfo = qubit_finder(root)
+    o.append("")
+    o.append(qtext)
+    return "\n".join(o) + "\n", {**qinfo, "args_mode": mode, "check_fields": fields, "assign_visits": av, "place_idx": pidx,
                                  "flags": members, "visitor_table": table}
